@@ -158,6 +158,11 @@ fn warn_name(w: &cx::Warning) -> Option<&'static str> {
     }
 }
 
+/// trailing `k=<n>`: the application pulls only `n` items of the returned iterator
+fn parse_pull(args: &[&str]) -> Option<usize> {
+    args.iter().find_map(|a| a.strip_prefix("k=")).and_then(|n| n.parse().ok())
+}
+
 fn parse_draws(args: &[&str]) -> VecDeque<[u8; 4]> {
     for a in args {
         if let Some(r) = a.strip_prefix("r=") {
@@ -270,7 +275,7 @@ fn parse_op(toks: &[&str]) -> Parse {
         ["send", pid, k, h] => num(pid).and_then(|p| parse_hex(h).map(|d| Op::Send(p, *k == "v", d))),
         ["flush", pid] => num(pid).map(Op::Flush),
         ["sendcl", a, h] => num(a).and_then(|a| parse_hex(h).map(|d| Op::SendCl(a, d))),
-        ["tick"] => Some(Op::Tick),
+        ["tick"] | ["tick", _] => Some(Op::Tick),
         ["needs_tick"] => Some(Op::NeedsTick),
         _ => None,
     };
@@ -318,7 +323,7 @@ fn send_res<E>(r: Result<(), nx::Error<E>>) -> String {
 }
 
 /// the call on the real endpoint
-fn run_net(net: &mut Net<u32>, op: &Op, now: u64, draws: VecDeque<[u8; 4]>) -> Obs {
+fn run_net(net: &mut Net<u32>, op: &Op, now: u64, draws: VecDeque<[u8; 4]>, pull: Option<usize>) -> Obs {
     let mut cb = NCb { now, draws, sent: vec![] };
     let mut ws: Vec<nx::Warning<u32>> = vec![];
     let mut events: Vec<String> = vec![];
@@ -326,7 +331,8 @@ fn run_net(net: &mut Net<u32>, op: &Op, now: u64, draws: VecDeque<[u8; 4]>) -> O
         Op::Feed(a, bytes) => {
             let mut buf = [0u8; 4096];
             let (it, _res) = net.feed(&mut cb, &mut ws, *a, bytes, &mut buf[..]);
-            for e in it {
+            // the iterator is dropped after `pull` items (None: drained)
+            for e in it.take(pull.unwrap_or(usize::MAX)) {
                 events.push(event_str(&e));
             }
             "ok".to_string()
@@ -358,8 +364,21 @@ fn run_net(net: &mut Net<u32>, op: &Op, now: u64, draws: VecDeque<[u8; 4]>) -> O
         }
         Op::SendCl(a, d) => send_res(net.send_connless(&mut cb, *a, d)),
         Op::Tick => {
-            for e in net.tick(&mut cb) {
-                match e {}
+            let mut t = net.tick(&mut cb);
+            match pull {
+                None => {
+                    for e in t {
+                        match e {}
+                    }
+                }
+                // polled `k` times, then dropped
+                Some(k) => {
+                    for _ in 0..k {
+                        if let Some(e) = t.next() {
+                            match e {}
+                        }
+                    }
+                }
             }
             "ok".to_string()
         }
@@ -450,7 +469,21 @@ impl World {
     /// Drive the reference connections by the projection of this call; `None` = the call is
     /// outside the API's preconditions as far as the endpoint itself is concerned (unknown peer
     /// id, accept/reject of a peer that is not pending, …): no claim.
-    fn predict(&mut self, op: &Op, draws: &VecDeque<[u8; 4]>) -> Option<Pred> {
+    fn predict(&mut self, op: &Op, draws: &VecDeque<[u8; 4]>, pull: Option<usize>) -> Option<Pred> {
+        if let (Op::Tick, Some(0)) = (op, pull) {
+            // a `Tick` that is never polled: nothing happens at all
+            return Some(Pred { ret: "ok".to_string(), tag: "C20/lazy-result", ..Default::default() });
+        }
+        let mut p = self.predict_drained(op, draws)?;
+        if let (Op::Feed(..), Some(k)) = (op, pull) {
+            // a `ReceivePacket` dropped after `k` items: the application sees a prefix, the
+            // endpoint has done everything all the same
+            p.events.truncate(k);
+        }
+        Some(p)
+    }
+
+    fn predict_drained(&mut self, op: &Op, draws: &VecDeque<[u8; 4]>) -> Option<Pred> {
         let now = self.now;
         let mut p = Pred { ret: "ok".to_string(), tag: "C20/isolation", ..Default::default() };
         let mut cb = CCb { now, draws: draws.clone(), sent: vec![] };
@@ -696,7 +729,14 @@ impl World {
             return;
         }
         if let Some((a, pending, token, conn)) = p.fresh {
-            let pid = fresh_pid.unwrap_or(0);
+            let pid = match fresh_pid {
+                Some(pid) => pid,
+                None => {
+                    // the `Connect(pid)` event was not pulled: nobody knows the new peer's id
+                    self.checks = false;
+                    return;
+                }
+            };
             if self.refs.values().any(|r| r.pid == pid) {
                 fail(o, "C20/pid-reuse", format!("fresh peer got id {} which a live peer holds", pid));
                 self.checks = false;
@@ -770,9 +810,13 @@ impl World {
             Parse::BadFeedLine => return "bad-feed-line".to_string(),
         };
         let draws = parse_draws(toks);
-        let pred = if self.checks { self.predict(&op, &draws) } else { None };
+        let pull = parse_pull(toks);
+        let pred = if self.checks { self.predict(&op, &draws, pull) } else { None };
         let had_claim = pred.is_some();
-        let obs = run_net(&mut self.net, &op, self.now, draws);
+        let obs = run_net(&mut self.net, &op, self.now, draws, pull);
+        if pull.is_some() {
+            o.count("partly_consumed_results");
+        }
         o.count(&format!("op_{}", toks[0]));
         if let Some(p) = pred {
             o.count("oracle_compared");
@@ -971,7 +1015,9 @@ impl<'a> Gen<'a> {
 
     fn feed(&mut self, a: u32, bytes: &[u8]) -> String {
         let d = self.draws();
-        let l = format!("feed {} {} {} {}", a, to_hex(bytes), parses(bytes), d);
+        // now and then the application drops the returned iterator early
+        let k = if self.rng.chance(1, 25) { format!(" k={}", self.rng.below(3)) } else { String::new() };
+        let l = format!("feed {} {} {} {}{}", a, to_hex(bytes), parses(bytes), d, k);
         self.line(&l)
     }
 
@@ -1234,7 +1280,11 @@ impl<'a> Gen<'a> {
                         });
                     }
                 }
-                self.line("tick");
+                match self.rng.below(20) {
+                    0 => self.line("tick k=0"),
+                    1 => self.line("tick k=2"),
+                    _ => self.line("tick"),
+                };
             }
             // ---- the application ends a peer
             91..=92 => {
@@ -1344,8 +1394,15 @@ fn sweep_alphabet() -> Vec<String> {
     ]
 }
 
+/// indices (into `sweep_alphabet`) of the reduced alphabet of the depth-6 sweep: connect requests
+/// from both addresses, both accepts, data and close on the first connection, send, flush, time, tick
+const REDUCED: &[usize] = &[0, 2, 3, 4, 8, 10, 11, 12, 15, 16];
+
 fn gen_sweeps(depth: u32, chunk: u64, out: &mut dyn std::io::Write) {
-    let alpha = sweep_alphabet();
+    gen_sweeps_over(sweep_alphabet(), depth, chunk, out)
+}
+
+fn gen_sweeps_over(alpha: Vec<String>, depth: u32, chunk: u64, out: &mut dyn std::io::Write) {
     let total = (alpha.len() as u64).pow(depth);
     let text = alpha.join(" ; ");
     let mut lo = 0;
@@ -1363,6 +1420,8 @@ fn gen_all(tier: &str, seed: u64, out: &mut dyn std::io::Write) {
         "thorough" => {
             gen_sweeps(4, 4096, out);
             gen_sweeps(5, 32768, out);
+            let full = sweep_alphabet();
+            gen_sweeps_over(REDUCED.iter().map(|i| full[*i].clone()).collect(), 6, 32768, out);
         }
         "search" => {}
         _ => gen_sweeps(4, 8192, out),
